@@ -242,7 +242,14 @@ func c18Endings(r *Run) {
 		stream = append(stream, peer.Encode(wsref.Frame{Fin: true, Opcode: wsref.OpClose, Payload: pl})...)
 	case 4:
 		other := byte(3 - typ)
-		stream = append(stream, peer.Encode(wsref.Frame{Fin: true, Opcode: other, Payload: []byte("wrong type")})...)
+		wf := peer.Encode(wsref.Frame{Fin: true, Opcode: other, Payload: Payload{Kind: 3, Len: 100, Seed: 7}.Bytes()})
+		if t.Pct(40) {
+			// only the header and a part of the payload arrive, then the peer is silent:
+			// the adapter's close handshake has to give up in bounded time
+			wf = wf[:len(wf)-60]
+			r.S.Count("probe.wrong-type-frame-stalls-in-its-payload")
+		}
+		stream = append(stream, wf...)
 	}
 	peer.Inject(stream)
 	if ending == 3 {
